@@ -207,6 +207,9 @@ func checkC01(c *Ctx) {
 	ruleP6(c, pipePkgs)
 	ruleX5b(c)
 	ruleX1b(c)
+	ruleR3(c)
+	ruleP7(c, pipePkgs)
+	ruleR2(c, allPkgs)
 }
 
 func checkC02(c *Ctx) {
@@ -223,6 +226,7 @@ func checkC02(c *Ctx) {
 	ruleX5b(c)
 	ruleX1b(c)
 	ruleT1c(c)
+	ruleR2(c, allPkgs)
 }
 
 func checkC04(c *Ctx) {
